@@ -24,7 +24,7 @@ use hydro_lang::sim::compiled::{verif_can_run, verif_run_hooks_logged};
 use hydro_lang::sim::runtime::{
     KeyedSingletonHook, KeyedStreamHook, MergeOrderedHook, PassthroughSingletonHook, SimHook, SimInlineHook,
     SingletonHook, StreamHook, StreamOrderHook, TopLevelFoldHook, TopLevelMergeOrderedHook,
-    TopLevelStreamOrderHook,
+    TopLevelKeyedStreamOrderHook, TopLevelPartiallyOrderedStreamHook, TopLevelStreamOrderHook,
 };
 
 // ------------------------------------------------------------------ scripted driver
@@ -310,6 +310,29 @@ fn build(h: &Value) -> Built {
                 format_item_debug: fmt_u32,
             });
             Built { hook, obs: Obs::Q2(q1, q2, rx) }
+        }
+        "top_keyed_order" | "top_partial" => {
+            let m: M = Rc::new(RefCell::new(FxHashMap::default()));
+            let (tx, rx) = unbounded::<(u32, u32)>();
+            fill_map(&m, &keyed(&h["m"]));
+            let hook: Box<dyn SimHook> = if kind == "top_partial" {
+                Box::new(TopLevelPartiallyOrderedStreamHook::<u32, u32> {
+                    input: m.clone(),
+                    to_release: None,
+                    output: tx,
+                    location: LOC,
+                    format_item_debug: fmt_kv,
+                })
+            } else {
+                Box::new(TopLevelKeyedStreamOrderHook::<u32, u32> {
+                    input: m.clone(),
+                    to_release: None,
+                    output: tx,
+                    location: LOC,
+                    format_item_debug: fmt_kv,
+                })
+            };
+            Built { hook, obs: Obs::M(m, rx) }
         }
         "keyed_t" | "keyed_n" | "ksingle" => {
             let m: M = Rc::new(RefCell::new(FxHashMap::default()));
